@@ -21,6 +21,8 @@ type specScope struct {
 	depth   int
 	// assumeMode: the expression is being assumed (callee contract at a call site), not proved
 	assumeMode bool
+	// inOld: evaluating inside old(...): parameter names denote the values passed in
+	inOld bool
 }
 
 func (s *specScope) with(name string, v Value) *specScope {
@@ -268,6 +270,17 @@ func (x *Exec) specIdent(sc *specScope, name string, hint types.Type) Value {
 		return v
 	}
 	if sc.fr != nil {
+		if sc.inOld && sc.fr.fn != nil {
+			// inside old(...): a parameter denotes the value passed in, also when the body keeps the
+			// parameter in a cell of its own (address taken, captured by a closure) that did not exist at entry
+			for _, p := range sc.fr.fn.Params {
+				if p.Name() == name {
+					if v, ok := sc.fr.env[p]; ok {
+						return v
+					}
+				}
+			}
+		}
 		if sv, ok := sc.fr.names[name]; ok {
 			if c, isc := sv.(*ssa.Const); isc {
 				return x.constValue(c)
@@ -635,6 +648,7 @@ func (x *Exec) specCall(sc *specScope, n *ECall, hint types.Type) Value {
 	case "old":
 		nsc := *sc
 		nsc.st = sc.old
+		nsc.inOld = true
 		return x.evalSpec0(&nsc, n.Args[0], hint)
 	case "len":
 		v := x.evalSpec0(sc, n.Args[0], nil)
